@@ -126,6 +126,18 @@ WideSum5(q, signed) == IF q = <<>> THEN <<0, 0, 0, 0, 0>> ELSE WideAdd5(WideSum5
 WideFits(q, dt) == LET s == WideSum5(q, dt = "i8") IN
                    IF dt = "i8" THEN s[1] = (IF s[2] >= 32768 THEN 65535 ELSE 0) ELSE s[1] = 0
 
+\* order of 64-bit values given as limbs: lexicographic on the limbs, the top bit flipped for the signed reading
+WideKey(x, signed) == IF signed THEN <<(x[1] + 32768) % 65536, x[2], x[3], x[4]>> ELSE x
+LexLess4(a, b) == \/ a[1] < b[1]
+                  \/ (a[1] = b[1] /\ (a[2] < b[2] \/ (a[2] = b[2] /\ (a[3] < b[3] \/ (a[3] = b[3] /\ a[4] < b[4])))))
+WideLess(dt, x, y) == LexLess4(WideKey(x, dt = "i8"), WideKey(y, dt = "i8"))
+RECURSIVE WideInsert(_, _, _)
+WideInsert(dt, q, v) == IF q = <<>> THEN <<v>>
+                        ELSE IF WideLess(dt, v, q[Len(q)]) THEN Append(WideInsert(dt, SubSeq(q, 1, Len(q) - 1), v), q[Len(q)]) ELSE Append(q, v)
+RECURSIVE WideSort(_, _)
+WideSort(dt, q) == IF q = <<>> THEN <<>> ELSE WideInsert(dt, WideSort(dt, SubSeq(q, 1, Len(q) - 1)), q[Len(q)])
+WideUnique(dt, q) == LET s == WideSort(dt, q) IN SelectSeq([i \in DOMAIN s |-> <<s[i], i>>], LAMBDA p : p[2] = 1 \/ s[p[2] - 1] # p[1])
+
 \* ---- casting a value of dtype a to dtype b (ndarray.astype); claimed only where CastOK
 Cast(a, b, v) ==
   IF IsFlt(a) THEN
